@@ -18,7 +18,7 @@ import vlib
 from engines import l2gen
 from engines.memalloc import split_trace, validate_chunks
 
-PROPS = ["C01", "C03", "C04", "C05", "C09", "C12", "C14"]
+PROPS = ["C01", "C02", "C03", "C04", "C05", "C09", "C12", "C14"]
 
 PREDS = {
     "C01": {"Inv_ExclDisjoint", "Inv_ExclNotInOthersTold", "Inv_ExclNotInPoolShared", "Inv_ToldWithinAllowed",
@@ -42,12 +42,14 @@ DESIGN = {  # property -> (module, cfg, description)
     "C05": ("MC_Pipeline", "MC_Pipeline_quick.cfg", "Pipeline: 2 pods x 2 containers, nondeterministic policy writes and failures"),
     "C14": ("MC_Pipeline", "MC_Pipeline_C14.cfg", "Pipeline with the unconstrained environment (any event, any id, any order)"),
     "C12": ("MC_Pipeline", "MC_Pipeline_quick.cfg", "Pipeline (delivery of policy decisions); opt-out predicates are checked on real traces"),
+    "C02": ("MC_Balloons", "MC_Balloons.cfg", "Balloons on 8 CPUs (2 packages x 2 cores x 2 threads), 3 containers, 3 balloon types"),
     "C04": ("MC_MemAlloc", "MC_MemAlloc_quick.cfg", "MemAlloc (libmem design) on 3-node layouts"),
 }
 
 
 def policies_for(pid):
-    return ["ta"] if pid in ("C01", "C03") else ["balloons"] if pid == "C02" else ["ta"]
+    both = os.environ.get("VERIF_L2_BALLOONS", "") != ""      # balloons half of the shared properties: being triaged
+    return ["ta"] if pid in ("C01", "C03") else ["balloons"] if pid == "C02" else (["ta", "balloons"] if both else ["ta"])
 
 
 def gen_histories(ctx, binp, pid):
@@ -56,7 +58,12 @@ def gen_histories(ctx, binp, pid):
     q = ctx.quick
     nworld, per_world, nops = (24, 5, 30) if q else (160, 12, 45)
     hs = []
-    worlds = l2gen.ta_worlds(ms, rnd, nworld)
+    pols = policies_for(pid)
+    worlds = []
+    if "ta" in pols:
+        worlds += l2gen.ta_worlds(ms, rnd, nworld if len(pols) == 1 else nworld // 2)
+    if "balloons" in pols:
+        worlds += l2gen.balloons_worlds(ms, rnd, nworld if len(pols) == 1 else nworld // 2)
     for w in worlds:
         for j in range(per_world):
             disorder = 0.0
@@ -70,11 +77,12 @@ def stats(trace_path):
     st = {"events": 0, "histories": 0, "worlds": set(), "create_ok": 0, "create_failed": 0, "updates_in_replies": 0,
           "multi_update_replies": 0, "pushed_batches": 0, "update_ok": 0, "update_failed": 0, "stop": 0, "sync": 0, "reconfigure_ok": 0,
           "excl_grants": 0, "isolated_grants": 0, "reserved_grants": 0, "mixed_grants": 0, "preserve_cpu": 0, "preserve_mem": 0,
-          "zone_moves": 0, "panics": 0, "probes_ok": 0, "quiescent_points": 0, "states": set(), "boot_errors": 0}
+          "zone_moves": 0, "balloons_created": 0, "balloons_deleted": 0, "shared_idle": 0, "panics": 0, "probes_ok": 0, "quiescent_points": 0, "states": set(), "boot_errors": 0}
     for l in open(trace_path):
         e = json.loads(l)
         if e["ev"] == "reset":
             st["histories"] += 1
+            st.pop("_prev_balloons", None)
             if "booterr" in e:
                 st["boot_errors"] += 1
             else:
@@ -117,12 +125,22 @@ def stats(trace_path):
                 if c:
                     st["preserve_cpu"] += 1 if c["pcpu"] else 0
                     st["preserve_mem"] += 1 if c["pmem"] else 0
+            bl = pol.get("balloons")
+            if bl is not None:
+                names = {b["name"] for b in bl}
+                prev = st.get("_prev_balloons")
+                if prev is not None:
+                    st["balloons_created"] += len(names - prev)
+                    st["balloons_deleted"] += len(prev - names)
+                st["_prev_balloons"] = names
+                st["shared_idle"] += 1 if any(b["shared"] for b in bl) else 0
             if not any(c["st"] in ("creating", "created", "running") for c in s["ctr"].values()):
                 st["quiescent_points"] += 1
             key = json.dumps([sorted((g["c"], g["pool"], tuple(g["excl"]), g["portion"]) for g in gr),
                               sorted((c, v["st"], tuple(v["cpus"]), tuple(v["mems"])) for c, v in s["ctr"].items()),
                               [(b["name"], b["cpus"], b["ctrs"]) for b in (pol.get("balloons") or [])]])
             st["states"].add(hash(key))
+    st.pop("_prev_balloons", None)
     st["worlds"] = len(st["worlds"])
     st["distinct_states"] = len(st.pop("states"))
     return st
@@ -131,6 +149,7 @@ def stats(trace_path):
 NEED = {
     "C01": ["excl_grants", "reserved_grants", "mixed_grants", "updates_in_replies"],
     "C03": ["excl_grants", "reserved_grants", "mixed_grants", "create_failed"],
+    "C02": ["create_ok", "create_failed", "updates_in_replies", "stop", "balloons_created", "balloons_deleted", "shared_idle"],
     "C04": ["create_ok", "updates_in_replies"],
     "C05": ["create_ok", "create_failed", "updates_in_replies", "multi_update_replies", "pushed_batches", "update_ok", "stop", "sync"],
     "C09": ["quiescent_points", "create_failed", "stop"],
